@@ -3,6 +3,7 @@
 import SkNet.Lemmas.Rename
 import SkNet.Lemmas.Reorder
 import SkNet.Lemmas.Valid
+import SkNet.Spec.Cut
 
 set_option linter.unusedSimpArgs false
 
@@ -240,11 +241,30 @@ theorem idxOf_append_left {a b : List Nat} {x : Nat} (hx : x ∈ a) : (a ++ b).i
       · exact absurd h.symm e
       · rw [List.cons_append, idxOf_cons_ne' _ _ e, idxOf_cons_ne' _ _ e, ih h]
 
+/-- in a valid dendrogram the size of a node (1 for a leaf, the size column for a merge) is its number of leaves -/
+theorem szW_eq_leaves {n : Nat} {D : Dendro α} (hv : ValidDendro n D = true) {x : Nat} (hx : x < n + D.length) :
+    szW (List.replicate n 1) D x = (leaves n D x).length := by
+  unfold szW
+  simp only [List.length_replicate]
+  by_cases hxn : x < n
+  · rw [if_pos hxn, leaves_leaf n D hxn]
+    simp [List.getD_eq_getElem?_getD, hxn]
+  · rw [if_neg hxn]
+    have ht : x - n < D.length := by omega
+    obtain ⟨hD, hl⟩ := split_at (List.getElem?_eq_getElem ht)
+    have hv' : ValidDendro n (D.take (x - n) ++ D[x - n] :: D.drop (x - n + 1)) = true := by rw [← hD]; exact hv
+    obtain ⟨_, _, _, _, hsz⟩ := valid_row hv'
+    rw [← hD, hl] at hsz
+    have e : n + (x - n) = x := by omega
+    rw [e] at hsz
+    simp [List.getElem?_eq_getElem ht, hsz]
+
 theorem aggregate_ge2 {D : Dendro α} {n k : Nat} (hv : ValidDendro n D = true) (hk2 : 2 ≤ k) (hkn : k ≤ n)
     (cnt : Bool) :
     ∃ out w, aggregateDendrogram D k cnt = .ok out ∧ w.length = k ∧ w.sum = n ∧
       ValidDendroW w out.dendro = true ∧
-      out.dendro.map (·.h) = (D.drop (n - k)).map (·.h) ∧ (cnt = true → out.counts = some w) := by
+      out.dendro.map (·.h) = (D.drop (n - k)).map (·.h) ∧ (cnt = true → out.counts = some w) ∧
+      w = (liveNodes n D (n - k)).map (fun x => (leaves n D x).length) := by
   have hlen := valid_length hv
   have hs := static_of_valid (w := List.replicate n 1) hv
   have hn1 : (List.replicate n 1).length = n := by simp
@@ -440,7 +460,7 @@ theorem aggregate_ge2 {D : Dendro α} {n k : Nat} (hv : ValidDendro n D = true) 
       split at hg
       · exact (Option.some.inj hg).symm
       · cases hg
-  refine ⟨{ dendro := newD, counts := if cnt then some w else none }, w, ?_, hwlen, ?_, ?_, ?_, ?_⟩
+  refine ⟨{ dendro := newD, counts := if cnt then some w else none }, w, ?_, hwlen, ?_, ?_, ?_, ?_, ?_⟩
   · unfold aggregateDendrogram
     have e1 : ¬ (k > D.length + 1) := by omega
     have e2 : ¬ (k < 1) := by omega
@@ -477,5 +497,120 @@ theorem aggregate_ge2 {D : Dendro α} {n k : Nat} (hv : ValidDendro n D = true) 
     rw [hsim]; rfl
   · simp [newD, Function.comp_def]
   · intro hc; simp [hc]
+  · -- the weights are the leaf counts of the clusters alive after the first n - k merges
+    have hc := (live_char (List.replicate n 1) D (n - k) Lm hm (by rw [hn1]; exact hLm)).2
+    have hext : ext = liveNodes n D (n - k) := by
+      apply sorted_ext _ _ hLmAsc
+      · unfold liveNodes
+        exact (List.pairwise_lt_range).filter _
+      · intro x
+        unfold liveNodes
+        have hused : ((D.take (n - k)).flatMap fun r => [r.i, r.j]) = childList (D.take (n - k)) := rfl
+        simp only [List.mem_filter, List.mem_range, hused]
+        have hx := hc x
+        rw [hn1] at hx
+        constructor
+        · intro hm'
+          have hsome : ∃ v, Lm.get? x = some v := by
+            cases hg : Lm.get? x with
+            | none => exact absurd hm' ((Dict.get?_eq_none_iff _ _).mp hg)
+            | some v => exact ⟨v, rfl⟩
+          obtain ⟨v, hv'⟩ := hsome
+          rw [hx] at hv'
+          split at hv'
+          · rename_i hcond
+            refine ⟨hcond.1, ?_⟩
+            simpa using hcond.2
+          · cases hv'
+        · rintro ⟨h1, h2⟩
+          have hnot : x ∉ childList (D.take (n - k)) := by simpa using h2
+          rw [if_pos ⟨h1, hnot⟩] at hx
+          exact Dict.get?_some_key_mem hx
+    rw [hwsz, ← hext]
+    apply List.map_congr_left
+    intro x hx
+    exact szW_eq_leaves hv (by have := hextB x hx; omega)
+
+
+/-- the clusters alive after the first `m` merges of a valid dendrogram: their number, their sizes -/
+theorem liveNodes_weights {D : Dendro α} {n m : Nat} (hv : ValidDendro n D = true) (hm : m ≤ D.length) :
+    (liveNodes n D m).length + m = n ∧
+    ((liveNodes n D m).map (fun x => (leaves n D x).length)).sum = n := by
+  have hlen := valid_length hv
+  have hn1 : (List.replicate n 1).length = n := by simp
+  have hvl : validLoop n 0 D (liveInit (List.replicate n 1)) = true := by
+    unfold ValidDendro ValidDendroW at hv
+    simp only [Bool.and_eq_true, List.length_replicate] at hv
+    exact hv.2
+  rw [validLoop_eq_isSome] at hvl
+  obtain ⟨Lf, hLf⟩ := Option.isSome_iff_exists.mp hvl
+  have hinit : LInv n 0 (liveInit (List.replicate n 1)) := by simpa using linv_init (List.replicate n 1)
+  obtain ⟨Lm, hLm⟩ := liveAfter_take m hLf
+  have htl : (D.take m).length = m := by simp [Nat.min_eq_left hm]
+  have hLmInv : LInv n m Lm := by
+    have := (liveAfter_linv (D.take m) 0 _ Lm hinit hLm).1
+    rwa [htl, Nat.zero_add] at this
+  have hLmLen : Lm.length + m = n := by
+    have := (liveAfter_linv (D.take m) 0 _ Lm hinit hLm).2
+    rw [htl] at this
+    simpa [liveInit] using this
+  obtain ⟨hLmAsc, hLmSum, _, _, _⟩ := liveAfter_facts (D.take m) 0 _ Lm hinit (ascKeys_init _) hLm
+  have hc := (live_char (List.replicate n 1) D m Lm hm (by rw [hn1]; exact hLm)).2
+  have hext : Dict.keys Lm = liveNodes n D m := by
+    apply sorted_ext _ _ hLmAsc
+    · unfold liveNodes
+      exact (List.pairwise_lt_range).filter _
+    · intro x
+      unfold liveNodes
+      have hused : ((D.take m).flatMap fun r => [r.i, r.j]) = childList (D.take m) := rfl
+      simp only [List.mem_filter, List.mem_range, hused]
+      have hx := hc x
+      rw [hn1] at hx
+      constructor
+      · intro hm'
+        have hsome : ∃ v, Lm.get? x = some v := by
+          cases hg : Lm.get? x with
+          | none => exact absurd hm' ((Dict.get?_eq_none_iff _ _).mp hg)
+          | some v => exact ⟨v, rfl⟩
+        obtain ⟨v, hv'⟩ := hsome
+        rw [hx] at hv'
+        split at hv'
+        · rename_i hcond
+          refine ⟨hcond.1, ?_⟩
+          simpa using hcond.2
+        · cases hv'
+      · rintro ⟨h1, h2⟩
+        have hnot : x ∉ childList (D.take m) := by simpa using h2
+        rw [if_pos ⟨h1, hnot⟩] at hx
+        exact Dict.get?_some_key_mem hx
+  have hvals : Lm.map (·.2) = (liveNodes n D m).map (fun x => (leaves n D x).length) := by
+    rw [← hext]
+    apply List.ext_getElem
+    · simp [Dict.keys]
+    · intro c h1 h2
+      simp only [List.length_map] at h1
+      simp only [Dict.keys, List.getElem_map]
+      have hmem : Lm[c] ∈ Lm := List.getElem_mem h1
+      have hg := Dict.mem_get?_of_nodup hLmInv.nodup (k := Lm[c].1) (v := Lm[c].2) hmem
+      rw [hc] at hg
+      split at hg
+      · rename_i hcond
+        rw [hn1] at hcond
+        rw [← szW_eq_leaves hv (by have := hcond.1; omega)]
+        exact (Option.some.inj hg).symm
+      · cases hg
+  constructor
+  · rw [← hext]; simpa [Dict.keys] using hLmLen
+  · rw [← hvals]
+    have : (Lm.map (·.2)).sum = sumVals Lm := rfl
+    rw [this, hLmSum]
+    have hrep : (List.range n).map (fun x => (List.replicate n 1).getD x 0) = List.replicate n 1 := by
+      apply List.ext_getElem
+      · simp
+      · intro i h1 h2
+        simp only [List.length_map, List.length_range] at h1
+        simp [h1, List.getD_eq_getElem?_getD]
+    simp only [sumVals, liveInit, List.map_map, Function.comp_def, List.length_replicate]
+    rw [hrep]; simp
 
 end SkNet.Cut
